@@ -427,6 +427,19 @@ def r3_6(repo: Repo) -> RuleResult:
             if mix[0] not in _backward_slice(f, names_in(cexpr)):
                 problems.append("the total `%s` accumulates `%s`, which does not include the mix weights, while the weights it divides do: "
                                 "with mix weights other than 1 an occurrence no longer distributes one unit over its windows" % (total, norm(cexpr)))
+        # the total is formed only when window normalisation is switched on (otherwise the weights are divided by 1)
+        flag = [p_ for p_ in f.params if "normal" in p_]
+        if not flag:
+            raise AnalysisError("R3.6: %s has no window-normalisation flag parameter" % f.key)
+        from .common import ancestors, parents_map
+
+        pm_ = parents_map(f.node)
+        for n in walk_no_nested(f.node):
+            is_contrib = (isinstance(n, ast.Assign) and any(isinstance(t, ast.Name) and t.id == total for t in n.targets) and not isinstance(n.value, ast.Constant)) \
+                or (isinstance(n, ast.AugAssign) and isinstance(n.target, ast.Name) and n.target.id == total)
+            if is_contrib and not any(isinstance(a, ast.If) and norm(a.test) == flag[0] and any(n is x for b_ in a.body for x in ast.walk(b_)) for a in ancestors(n, pm_)):
+                problems.append("the total is formed from the kernels (`%s`) outside `if %s`: the weights are normalised even when window "
+                                "normalisation is off" % (short(n, 50), flag[0]))
         guard = [n for n in walk_no_nested(f.node) if isinstance(n, ast.If) and norm(n.test) in ("%s <= 0" % total, "%s == 0" % total, "%s <= 0.0" % total)]
         if not guard:
             problems.append("no guard against a zero total before the division")
